@@ -275,10 +275,16 @@ func checkC03(r *Run) {
 	r.Rule = fmt.Sprintf("pipelines over 2–4 packages (JSON Schema/OpenAPI/CUE inputs from the AM generator), 3–7 languages, types+builders(+converters, api reference), debug on/off, passes with multi-hint hint_object / fields_set_default / duplicate_object, veneers per package, nested parameters; each run %d× in-process and %d× in child processes; every artefact digest must be unique. distinct_nontrivial = distinct (pipeline, run) executions that produced ≥1 file", K, P)
 	self, _ := os.Executable()
 	canaryOrders := map[string]int{}
-	for pi := 0; pi < nPipes; pi++ {
+	for pi := 0; pi <= nPipes; pi++ {
 		rng := newRNG("C03", r.Seed, pi)
 		dir, _ := os.MkdirTemp(scratchDir(), "c03-")
-		pf, outRoot, desc := c03Pipeline(dir, rng, pi)
+		var pf, outRoot string
+		var desc map[string]any
+		if pi == nPipes {
+			pf, outRoot, desc = c03MeetingKeysPipeline(dir)
+		} else {
+			pf, outRoot, desc = c03Pipeline(dir, rng, pi)
+		}
 		digests := map[string]map[string]int{} // artefact → digest → count
 		runs := 0
 		record := func(arts map[string]string) {
@@ -368,6 +374,78 @@ func checkC03(r *Run) {
 		r.Inconclusive("map-order canary never flipped: the runtime's iteration-order freedom was not exercised")
 	}
 	r.Assumptions = append(r.Assumptions, "Go randomises the start of every map range; repetition (in-process) and fresh processes (hash seed) are the only way to explore those orders")
+}
+
+// c03MeetingKeysPipeline: a fixed workload whose configuration maps hold entries that meet — a `rename_options`
+// map where one entry's new name is another entry's old name, a `packages_import_map` with two spellings of the same
+// package — next to a cross-package reference. Whatever cog decides for them, it must decide it the same way each run.
+func c03MeetingKeysPipeline(dir string) (string, string, map[string]any) {
+	in := filepath.Join(dir, "in")
+	_ = os.MkdirAll(filepath.Join(in, "common_types"), 0o755)
+	_ = os.MkdirAll(filepath.Join(in, "dashboard"), 0o755)
+	_ = os.MkdirAll(filepath.Join(dir, "veneers"), 0o755)
+	_ = os.WriteFile(filepath.Join(in, "common_types", "common.cue"), []byte("package common_types\n\n#DataSourceRef: {\n\tuid: string\n\ttype?: string\n}\n"), 0o644)
+	_ = os.WriteFile(filepath.Join(in, "dashboard", "dashboard.cue"), []byte(`package dashboard
+
+import "example.com/lib/common_types"
+
+#LineConfig: {
+	mode?:  string
+	style?: string
+	width?: int64
+	fill?:  string
+}
+
+#Panel: {
+	title:       string
+	datasource:  common_types.#DataSourceRef
+	lineConfig?: #LineConfig
+}
+`), 0o644)
+	_ = os.WriteFile(filepath.Join(dir, "veneers", "dashboard.yaml"), []byte(`language: all
+package: dashboard
+builders:
+  - merge_into:
+      destination: Panel
+      source: LineConfig
+      under_path: lineConfig
+      rename_options:
+        mode: style
+        style: fill
+        fill: lineFill
+options: ~
+`), 0o644)
+	outRoot := filepath.Join(dir, "out")
+	yaml := fmt.Sprintf(`inputs:
+  - cue:
+      entrypoint: %s
+      package: common_types
+  - cue:
+      entrypoint: %s
+      package: dashboard
+      cue_imports: ['%s:example.com/lib/common_types']
+transformations:
+  builders:
+    - %s
+output:
+  directory: %s
+  types: true
+  builders: true
+  languages:
+    - typescript:
+        packages_import_map:
+          common_types: '@acme/common-types'
+          commonTypes: '@acme/legacy-common'
+          CommonTypes: '@acme/older-common'
+    - go:
+        package_root: example.com/acme/gen
+    - python: {}
+    - java: {}
+    - php: {}
+`, yq(filepath.Join(in, "common_types")), yq(filepath.Join(in, "dashboard")), filepath.Join(in, "common_types"), yq(filepath.Join(dir, "veneers")), yq(filepath.Join(outRoot, "%l")))
+	pf := filepath.Join(dir, "pipeline.yaml")
+	_ = os.WriteFile(pf, []byte(yaml), 0o644)
+	return pf, outRoot, map[string]any{"workload": "configuration maps whose entries meet (rename_options chain, packages_import_map spellings)", "languages": []string{"typescript", "go", "python", "java", "php"}, "packages": 2}
 }
 
 const c03IntersectionSchema = `{"$schema":"http://json-schema.org/draft-07/schema#","definitions":{
